@@ -349,8 +349,53 @@ type C02Case struct {
 	Eval bool `json:",omitempty"`
 }
 
+// addLayeredEgress: a BANP that denies a port range on egress for every pod, next to ANPs of different subjects that
+// allow single ports of that range on egress - what the BANP denies differs per source, towards one destination.
+func addLayeredEgress(t *rapid.T, w *World) {
+	if len(w.Workloads) < 2 {
+		return
+	}
+	all := APeer{Namespaces: &Selector{}}
+	proto := rapid.SampledFrom(protos).Draw(t, "leproto")
+	deny := ARule{Name: "deny-range", Action: "Deny", Peers: []APeer{all}, HasPorts: true, Ports: []APort{{Kind: "range", Proto: proto, Port: 79, End: 82}}}
+	b := AdminPol{Name: "default", Subject: all, Egress: []ARule{deny}}
+	if w.BANP != nil && rapid.Bool().Draw(t, "lekeep") {
+		w.BANP.Subject = all
+		w.BANP.Egress = append([]ARule{deny}, w.BANP.Egress...)
+	} else {
+		w.BANP = &b
+	}
+	if rapid.Bool().Draw(t, "ledropnp") {
+		w.NPs = nil // no NetworkPolicy governs the sources: the BANP decides what the ANPs leave open
+	}
+	used := map[int]bool{}
+	for i := range w.ANPs {
+		used[w.ANPs[i].Priority] = true
+	}
+	n := rapid.IntRange(1, 3).Draw(t, "lenanp")
+	for k := 0; k < n && len(w.ANPs) < 8; k++ {
+		l := fmt.Sprintf("le%d", k)
+		x := w.Workloads[rapid.IntRange(0, len(w.Workloads)-1).Draw(t, l+"wl")]
+		subj := APeer{PodsNs: &Selector{MatchLabels: map[string]string{nsNameKey: x.Ns}}, PodsPod: &Selector{MatchLabels: copyMapS(x.Labels)}}
+		if rapid.IntRange(0, 3).Draw(t, l+"nssubj") == 0 {
+			subj = APeer{Namespaces: &Selector{MatchLabels: map[string]string{nsNameKey: x.Ns}}}
+		}
+		prio := rapid.IntRange(0, 1000).Draw(t, l+"prio")
+		for used[prio] {
+			prio = (prio + 1) % 1001
+		}
+		used[prio] = true
+		r := ARule{Name: "allow-one", Action: rapid.SampledFrom([]string{"Allow", "Allow", "Pass"}).Draw(t, l+"act"), Peers: []APeer{all}, HasPorts: true,
+			Ports: []APort{{Kind: "number", Proto: proto, Port: rapid.SampledFrom([]int{79, 80, 81, 82}).Draw(t, l+"port")}}}
+		w.ANPs = append(w.ANPs, AdminPol{Name: fmt.Sprintf("le-anp%d", k), Priority: prio, Subject: subj, Egress: []ARule{r}})
+	}
+}
+
 func genC02(t *rapid.T) *C02Case {
 	w := GenWorld(t, GenCfg{Admin: true})
+	if rapid.IntRange(0, 3).Draw(t, "layeredegress") == 0 {
+		addLayeredEgress(t, w)
+	}
 	idx := make([]int, len(w.ANPs))
 	for i := range idx {
 		idx[i] = i
